@@ -93,7 +93,7 @@ pub fn check_program(src: &str) -> Option<String> {
         let mut steps = 0;
         // "original" values and stack offsets are relative to the entry of the enclosing function: one snapshot per activation
         let mut entry = init;
-        let mut calls: Vec<(usize, [i32; 32])> = Vec::new();
+        let mut calls: Vec<(usize, [i32; 32], [i32; 32])> = Vec::new();   // return pc, caller's entry snapshot, registers at the call
         while pc < nodes.len() && steps < 400 {
             steps += 1;
             let node = &nodes[pc];
@@ -135,7 +135,7 @@ pub fn check_program(src: &str) -> Option<String> {
                         1 => {
                             // call: the callee is executed for real; it must itself respect the convention
                             if calls.len() >= 8 { break; }
-                            calls.push((pc + 1, entry));
+                            calls.push((pc + 1, entry, m.regs));
                             m.regs[1] = 0x0040_0000 + 4 * (pc as i32 + 1);
                             next = t;
                         }
@@ -146,7 +146,14 @@ pub fn check_program(src: &str) -> Option<String> {
                 ParserNode::JumpLinkR(x) => {
                     // only `ret` (jalr x0, 0(ra)) is interpreted
                     if !(x.rd.get().to_num() == 0 && x.rs1.get().to_num() == 1 && x.imm.get().value() == 0) { break; }
-                    match calls.pop() { Some((ret_pc, saved)) => { next = ret_pc; entry = saved; } None => break }
+                    // the property covers callees that respect the convention: sp and the saved registers are back at their entry values
+                    match calls.pop() {
+                        Some((ret_pc, saved, at_call)) => {
+                            if [2usize, 8, 9, 18, 19, 20, 21, 22, 23, 24, 25, 26, 27].iter().any(|&k| m.regs[k] != at_call[k]) { break; }
+                            next = ret_pc; entry = saved;
+                        }
+                        None => break,
+                    }
                 }
                 _ => {}
             }
@@ -181,6 +188,64 @@ pub fn check_program(src: &str) -> Option<String> {
 trait RawTextSafe { fn raw_text_safe(&self) -> String; }
 impl RawTextSafe for ParserNode {
     fn raw_text_safe(&self) -> String { use riscv_analysis::passes::DiagnosticLocation; self.raw_text() }
+}
+
+/// every sequence of `len` statements from a pool of stack / register statements inside an 8-byte frame
+pub fn enumerate(len: usize, shape: &str) -> i32 {
+    let pool = ["sw zero, 0(sp)", "sw a0, 0(sp)", "sw t0, 0(sp)", "sw s0, 4(sp)", "sb a1, 0(sp)", "sh a1, 2(sp)", "sb zero, 5(sp)",
+        "lw t1, 0(sp)", "lw s0, 4(sp)", "lb t2, 0(sp)", "lhu t2, 4(sp)", "li t0, 7", "mv t0, zero", "addi a0, a0, 1", "mv s0, t1", "mv t0, sp",
+        "addi sp, sp, -4", "addi sp, sp, 4", "sub t0, t0, sp"];
+    // one worker per first statement; the remaining len-1 positions are enumerated inside the worker
+    let found = std::sync::Mutex::new(None::<String>);
+    let total = std::sync::atomic::AtomicU64::new(0);
+    std::thread::scope(|sc| {
+        for first in 0..pool.len() {
+            let (found, total, pool) = (&found, &total, &pool);
+            sc.spawn(move || {
+                let mut idx = vec![0usize; len.saturating_sub(1)];
+                loop {
+                    if found.lock().unwrap().is_some() { return; }
+                    let mut stmts: Vec<&str> = Vec::with_capacity(len);
+                    if len > 0 { stmts.push(pool[first]); }
+                    for &i in &idx { stmts.push(pool[i]); }
+                    // the statements run inside a called function, so that the saved registers have entry-relative facts
+                    let frame = "main:\njal ra, f\nli a7, 10\necall\nf:\naddi sp, sp, -8\nsw s0, 4(sp)\nsw s1, 0(sp)";
+                    let mut p = match shape {
+                        // a function that is entered at two labels: called as f (falls through into g) or as g, depending on a0
+                        "fall" => String::from("main:\nbeqz a0, direct\njal ra, f\nj done\ndirect:\njal ra, g\ndone:\nli a7, 10\necall\nf:\naddi sp, sp, -8"),
+                        _ => String::from(frame),
+                    };
+                    for (k, st) in stmts.iter().enumerate() {
+                        // fixed skeleton around the enumerated statements
+                        match shape {
+                            "branch" if k == 1 => p.push_str("\nbeqz a0, skip"),
+                            "loop" if k == 0 => p.push_str("\nloop:"),
+                            "while" if k == 0 => p.push_str("\nloop:\nbeqz a0, done"),
+                            "fall" if k == 1 => p.push_str("\naddi sp, sp, 8\ng:\naddi sp, sp, -8"),
+                            _ => {}
+                        }
+                        if k + 1 == len && len >= 2 {
+                            match shape {
+                                "branch" => p.push_str("\nskip:"),
+                                "loop" => p.push_str("\naddi a0, a0, -1\nbnez a0, loop"),
+                                "while" => p.push_str("\naddi a0, a0, -1\nj loop\ndone:"),
+                                _ => {}
+                            }
+                        }
+                        p.push('\n'); p.push_str(st);
+                    }
+                    p.push_str(if shape == "fall" { "\naddi sp, sp, 8\nret" } else { "\nret" });
+                    total.fetch_add(1, std::sync::atomic::Ordering::Relaxed);
+                    if let Some(w) = check_program(&p) { let mut f = found.lock().unwrap(); if f.is_none() { *f = Some(w); } return; }
+                    let mut k = 0;
+                    loop { if k == idx.len() { return; } idx[k] += 1; if idx[k] < pool.len() { break; } idx[k] = 0; k += 1; }
+                }
+            });
+        }
+    });
+    if let Some(w) = found.into_inner().unwrap() { println!("witness: {w}"); return 1; }
+    println!("no false claim among {} programs (shape `{shape}`: all sequences of {len} statements from a pool of {}) x 6 initial register files", total.into_inner(), pool.len());
+    0
 }
 
 pub fn search(v: &serde_json::Value) -> i32 {
@@ -224,6 +289,10 @@ pub fn search(v: &serde_json::Value) -> i32 {
         "main:\naddi sp, sp, -8\nsw ra, 4(sp)\nli t0, 3\nsw t0, 0(sp)\njal ra, g\nlw t1, 0(sp)\nlw ra, 4(sp)\naddi sp, sp, 8\nli a7, 10\necall\ng:\naddi sp, sp, -4\nsw s1, 0(sp)\naddi s1, a0, 1\nmv a0, s1\nlw s1, 0(sp)\naddi sp, sp, 4\nret",
         "main:\nli a0, 2\njal ra, h\nmv t0, a0\nli a0, 0\njal ra, h\nmv t1, a0\nli a7, 10\necall\nh:\nbeqz a0, zero_case\nli a0, 10\nret\nzero_case:\nli a0, 20\nret",
         "main:\nli s2, 1\nli t0, 0\nli t1, 3\nloop:\nmv a0, t0\njal ra, k\naddi s2, s2, 1\nli t1, 3\naddi t0, a0, 1\nblt t0, t1, loop\nmv t2, s2\nli a7, 10\necall\nk:\nret",
+        "addi sp, sp, -4\nsw zero, 0(sp)\nsw a0, 0(sp)\nlw t1, 0(sp)\naddi sp, sp, 4",
+        "main:\nbeqz a0, direct\njal ra, f\nj done\ndirect:\njal ra, g\ndone:\nli a7, 10\necall\nf:\nli t0, 7\nsw t0, -4(sp)\ng:\naddi sp, sp, -4\nlw t1, 0(sp)\naddi a0, t1, 1\naddi sp, sp, 4\nret",
+        "main:\njal ra, f\nli a7, 10\necall\nf:\naddi sp, sp, -4\nli t0, 7\nsw t0, 0(sp)\nloop:\nlw t1, 0(sp)\nsw a0, 0(sp)\naddi a0, a0, -1\nbnez a0, loop\naddi sp, sp, 4\nret",
+        "main:\njal ra, f\nli a7, 10\necall\nf:\naddi sp, sp, -4\nsw s0, 0(sp)\nloop:\nbeqz a0, done\nsw a0, 0(sp)\naddi a0, a0, -1\nj loop\ndone:\nlw s0, 0(sp)\naddi sp, sp, 4\nret",
         "li t0, -2147483648\nli t1, -1\ndiv t2, t0, t1\nrem t3, t0, t1\ndiv t4, t0, x0\nremu t5, t0, x0\nmulhsu t6, t1, t1",
     ];
     for p in fixed { if run(p.to_string()) { return 1; } }
